@@ -61,8 +61,10 @@ func (a *AnySchema) validateSchemaCompatibility(schema Type) error {
 	default:
 		// Schema is not a primitive, slice, or map type, so check the complex types
 		// Explicitly allow object schemas since their reflected type can be a struct if they are struct mapped.
-		switch schema.(type) {
-		case *AnySchema, *OneOfSchema[int64], *OneOfSchema[string], *ObjectSchema:
+		// The kind decides, not the Go type that implements it: a reference to an object, a scope or a typed object
+		// produce the same values as the object itself.
+		switch schema.TypeID() {
+		case TypeIDAny, TypeIDOneOfInt, TypeIDOneOfString, TypeIDObject, TypeIDRef, TypeIDScope:
 			// These are the allowed values.
 		default:
 			// It's not an any schema or a type compatible with an any schema, so error
